@@ -19,6 +19,38 @@ def mentions(node):
     return None
 
 
+def is_set_expr(e, setvars=()):
+    """syntactically a set: set(...) / frozenset(...), a set display or comprehension, a set-algebra expression over
+    dict key views / sets, or a local name bound to one of these in the same function"""
+    if isinstance(e, (ast.Set, ast.SetComp)):
+        return True
+    if isinstance(e, ast.Call) and isinstance(e.func, ast.Name) and e.func.id in ("set", "frozenset"):
+        return True
+    if isinstance(e, ast.Call) and isinstance(e.func, ast.Attribute) and e.func.attr in ("union", "intersection", "difference", "symmetric_difference"):
+        return True
+    if isinstance(e, ast.BinOp) and isinstance(e.op, (ast.BitAnd, ast.BitOr, ast.BitXor, ast.Sub)):
+        def setlike(x):
+            return is_set_expr(x, setvars) or (isinstance(x, ast.Call) and isinstance(x.func, ast.Attribute) and x.func.attr in ("keys", "items"))
+        return setlike(e.left) or setlike(e.right)
+    if isinstance(e, ast.Name) and e.id in setvars:
+        return True
+    return False
+
+
+def set_vars(f):
+    """names a function binds to a syntactic set expression"""
+    out = set()
+    for _ in range(2):
+        for n in ast.walk(f):
+            if isinstance(n, ast.Assign) and is_set_expr(n.value, out):
+                for t in n.targets:
+                    if isinstance(t, ast.Name):
+                        out.add(t.id)
+            if isinstance(n, ast.AnnAssign) and n.value is not None and is_set_expr(n.value, out) and isinstance(n.target, ast.Name):
+                out.add(n.target.id)
+    return out
+
+
 def scan(repo="/repo"):
     sites = []
     for root, _, files in os.walk(os.path.join(repo, "geneticengine")):
@@ -32,11 +64,13 @@ def scan(repo="/repo"):
             except SyntaxError:
                 sites.append({"file": rel, "function": "?", "kind": "unparseable", "name": "?"})
                 continue
-            funcs = {}
+            funcs, svars = {}, {}
             for f in ast.walk(tree):
                 if isinstance(f, (ast.FunctionDef, ast.AsyncFunctionDef)):
+                    sv = set_vars(f)
                     for n in ast.walk(f):
                         funcs.setdefault(id(n), f.name)
+                        svars.setdefault(id(n), sv)
             for n in ast.walk(tree):
                 its = []
                 if isinstance(n, (ast.For, ast.AsyncFor)):
@@ -51,6 +85,9 @@ def scan(repo="/repo"):
                     nm = mentions(e)
                     if nm:
                         sites.append({"file": rel, "function": funcs.get(id(n), "<module>"), "kind": kind, "name": nm})
+                    elif kind != "sorted" and is_set_expr(e, svars.get(id(n), ())):
+                        # iteration over any other syntactic set (hash-ordered: of strings it varies with PYTHONHASHSEED, of objects with addresses)
+                        sites.append({"file": rel, "function": funcs.get(id(n), "<module>"), "kind": kind, "name": "set-expression:" + ast.unparse(e)[:60]})
     uniq = sorted({json.dumps(s, sort_keys=True) for s in sites})
     return [json.loads(s) for s in uniq]
 
